@@ -1148,7 +1148,14 @@ func (self *Value) SetMany(pathes []PathNode, opts *Options, root *Value, addres
 		ps.a = ps.a[:len(pathes)]
 	}
 	copy(ps.a, pathes)
-	ps.b = pathes
+	// NOTICE: the new values are given record tags and are reordered below: that happens on a copy, the caller's
+	// slice stays as it is (it may be applied to another message, or to this one again)
+	if cap(ps.b) < len(pathes) {
+		ps.b = make([]PathNode, len(pathes))
+	} else {
+		ps.b = ps.b[:len(pathes)]
+	}
+	copy(ps.b, pathes)
 	originLen := len(self.raw()) // current buf length
 	rootLen := len(root.raw())   // root buf length
 	isPacked := self.Desc.IsPacked()
@@ -1200,7 +1207,6 @@ func (self *Value) SetMany(pathes []PathNode, opts *Options, root *Value, addres
 	err = root.replaceMany(ps)
 	root.updateByteLen(rootLen, address, isPacked, false, path...)
 ret:
-	ps.b = nil
 	pnsPool.Put(ps)
 	return
 }
